@@ -202,7 +202,8 @@ def denotation_worker(args):
         should_accept = len(times) > 0
         tp = TimePattern.from_string(pat)
         # acceptance at the compile level (literal, and through a macro)
-        for text in ('time at %s on all' % pat, 'define tp %s\ntime at tp on all' % pat):
+        # ... and as a later alternative of a list whose other patterns are valid: the list is accepted exactly when this one is
+        for text in ('time at %s on all' % pat, 'define tp %s\ntime at tp on all' % pat, 'time at 1:00 or %s on all' % pat, 'time at 1:00 or 2:3* or %s on all' % pat):
             world.configure(())
             p = Parser()
             ok = p.parse(text)
